@@ -139,6 +139,15 @@ pub fn materialise(c: &Case) -> Mat {
             reads.push((s.clone(), q.clone()));
         }
     }
+    // one case in eight: the first read of the first file has the lowest quality at every base (a dummy-quality
+    // record in front of real reads): it is one read among the others
+    if (c.k + c.reads.len() + c.min_qual as usize) % 8 == 3 {
+        if let Some(r0) = reads.first_mut() {
+            for q in r0.1.iter_mut() {
+                *q = b'!';
+            }
+        }
+    }
     // k >= 33, --min-count >= 3, half of the cases: a k-mer S seen exactly min-count times and its relative T (S with
     // the bases at positions i and i+32 exchanged) seen twice, in the order S T S..S T S: two k-mers are two counts
     if k >= 33 && c.min_count >= 3 && (genome.len() + c.reads.len()) % 2 == 0 {
